@@ -1,0 +1,180 @@
+//go:build verif
+
+package kessoku
+
+import (
+	"go/ast"
+	"go/parser"
+	"go/token"
+	"go/types"
+
+	"golang.org/x/tools/go/packages"
+
+	vs "github.com/mazrean/kessoku/internal/verifspec"
+)
+
+// ---------------------------------------------------------------------------
+// C04 / C12: ParseFile reserves every package-level identifier of every file of the package in the name
+// pool BEFORE the first name is handed out for use (import names; injector-local names come later still).
+// The allocator only guarantees that a name differs from everything issued before it (C12), so the user's
+// identifiers must all be in the pool first - a name handed out earlier can collide with an identifier
+// registered later, and the user's identifier cannot be renamed.
+//
+// gNamesHandedOut counts the names ParseFile takes from the pool for use in generated code.
+// ---------------------------------------------------------------------------
+
+var gNamesHandedOut int
+
+// The data-structure invariant of the name pool holds for every pool at every call boundary: the pool's
+// state is touched only by its own methods (checked syntactically on every run), each of which is proved
+// to re-establish it.
+//
+//kvc:typeinv VarPool NewVarPool
+func typeinvVarPool() bool {
+	return vs.ForallPtr(func(p *VarPool) bool { return poolInv(p) })
+}
+
+//kvc:pure parsedFile
+func parsedFile(filename string) *ast.File { return nil }
+
+//kvc:model go/parser.ParseFile
+func model_parser_ParseFile(fset *token.FileSet, filename string, src any, mode parser.Mode) (*ast.File, error) {
+	if vs.NondetBool() {
+		return nil, vs.SomeError()
+	}
+	f := parsedFile(filename)
+	vs.Assume(f != nil)
+	return f, nil
+}
+
+//kvc:pure absPath
+func absPath(p string) string { return p }
+
+//kvc:model path/filepath.Abs
+func model_filepath_Abs_k(p string) (string, error) {
+	if vs.NondetBool() {
+		return "", vs.SomeError()
+	}
+	return absPath(p), nil
+}
+
+//kvc:pure unquoted
+func unquoted(s string) string { return s }
+
+//kvc:model strconv.Unquote
+func model_strconv_Unquote(s string) (string, error) {
+	if vs.NondetBool() {
+		return "", vs.SomeError()
+	}
+	return unquoted(s), nil
+}
+
+// what the loader delivers: syntax trees without typed-nil nodes in the places ParseFile walks
+func specWF(s ast.Spec) bool { return vs.IsAllocated(s) }
+
+func declWF(d ast.Decl) bool {
+	return vs.IsAllocated(d) &&
+		vs.Implies(vs.TypeIs[*ast.GenDecl](d), vs.Forall(len(vs.As[*ast.GenDecl](d).Specs), func(k int) bool { return specWF(vs.As[*ast.GenDecl](d).Specs[k]) }))
+}
+
+func fileWF(f *ast.File) bool {
+	return vs.Forall(len(f.Decls), func(j int) bool { return declWF(f.Decls[j]) }) &&
+		vs.Forall(len(f.Imports), func(j int) bool { return f.Imports[j] != nil && f.Imports[j].Path != nil })
+}
+
+func loadedPackageWF(pkg *packages.Package) bool {
+	return pkg != nil && vs.Forall(len(pkg.Syntax), func(i int) bool { return pkg.Syntax[i] == nil || fileWF(pkg.Syntax[i]) })
+}
+
+// ASSUMED (go/packages is external): a loaded package is well-formed in the sense above.
+//
+//kvc:contract (*Parser).initializePackages
+func contract_Parser_initializePackages(p *Parser, filename string) (pkg *packages.Package, err error) {
+	vs.Ensures("loaded", vs.Implies(err == nil, loadedPackageWF(pkg)))
+	vs.Allocates()
+	return
+}
+
+// ASSUMED (ast.Inspect with a closure over go/types): finding the Inject calls takes names from the pool
+// only through its methods and produces non-nil directives.
+//
+//kvc:contract (*Parser).findInjectDirectives
+func contract_Parser_findInjectDirectives(p *Parser, file *ast.File, pkg *packages.Package, kessokuPackageScope *types.Scope, imports map[string]*Import, fileImports []*ast.ImportSpec, varPool *VarPool) (builds []*BuildDirective, err error) {
+	vs.Ensures("builds_nonnil", vs.Forall(len(builds), func(i int) bool { return builds[i] != nil }))
+	vs.ModifiesAll()
+	vs.Allocates()
+	return
+}
+
+//kvc:contract (*Parser).ParseFile
+func contract_Parser_ParseFile(p *Parser, filename string, varPool *VarPool) (metaData *MetaData, builds []*BuildDirective, err error) {
+	vs.Requires(p != nil && varPool != nil)
+	vs.TypeInvariants()
+	vs.Ensures("builds_nonnil", vs.Forall(len(builds), func(i int) bool { return builds[i] != nil }))
+	vs.ModifiesAll()
+	vs.Allocates()
+	return
+}
+
+//kvc:loop (*Parser).ParseFile "for i, f := range pkg.Syntax"
+func inv_ParseFile_target(pkg *packages.Package) {
+	vs.Invariant("nothing_handed_out", gNamesHandedOut == vs.Old(gNamesHandedOut))
+}
+
+//kvc:loop (*Parser).ParseFile "for _, f := range pkg.Syntax { if f == nil { continue } for _, decl := range f.Decls"
+func inv_ParseFile_reserve_files(pkg *packages.Package, varPool *VarPool) {
+	vs.Invariant("nothing_handed_out", gNamesHandedOut == vs.Old(gNamesHandedOut))
+	vs.Invariant("wf", loadedPackageWF(pkg) && poolInv(varPool))
+}
+
+//kvc:loop (*Parser).ParseFile "for _, decl := range f.Decls"
+func inv_ParseFile_reserve_decls(pkg *packages.Package, f *ast.File, varPool *VarPool) {
+	vs.Invariant("nothing_handed_out", gNamesHandedOut == vs.Old(gNamesHandedOut))
+	vs.Invariant("wf", loadedPackageWF(pkg) && f != nil && fileWF(f) && poolInv(varPool))
+}
+
+//kvc:loop (*Parser).ParseFile "for _, spec := range decl.Specs"
+func inv_ParseFile_reserve_specs(pkg *packages.Package, f *ast.File, decl *ast.GenDecl, varPool *VarPool) {
+	vs.Invariant("nothing_handed_out", gNamesHandedOut == vs.Old(gNamesHandedOut))
+	vs.Invariant("wf", loadedPackageWF(pkg) && f != nil && fileWF(f) && decl != nil && poolInv(varPool) &&
+		vs.Forall(len(decl.Specs), func(k int) bool { return specWF(decl.Specs[k]) }))
+}
+
+//kvc:loop (*Parser).ParseFile "for _, name := range spec.Names"
+func inv_ParseFile_reserve_names(pkg *packages.Package, f *ast.File, decl *ast.GenDecl, varPool *VarPool) {
+	vs.Invariant("nothing_handed_out", gNamesHandedOut == vs.Old(gNamesHandedOut))
+	vs.Invariant("wf", loadedPackageWF(pkg) && f != nil && fileWF(f) && decl != nil && poolInv(varPool) &&
+		vs.Forall(len(decl.Specs), func(k int) bool { return specWF(decl.Specs[k]) }))
+}
+
+//kvc:loop (*Parser).ParseFile "for _, f := range pkg.Syntax { if f == nil { continue } for _, imp := range f.Imports"
+func inv_ParseFile_import_files(pkg *packages.Package, metaData *MetaData, varPool *VarPool) {
+	vs.Invariant("wf", loadedPackageWF(pkg) && metaData != nil && metaData.Imports != nil && poolInv(varPool))
+}
+
+//kvc:loop (*Parser).ParseFile "for _, imp := range f.Imports"
+func inv_ParseFile_imports(pkg *packages.Package, f *ast.File, metaData *MetaData, varPool *VarPool) {
+	vs.Invariant("wf", loadedPackageWF(pkg) && f != nil && fileWF(f) && metaData != nil && metaData.Imports != nil && poolInv(varPool))
+}
+
+// every reservation of a user identifier happens while no name has been handed out yet
+//
+//kvc:ghost (*Parser).ParseFile before "_ = varPool.GetName(name.Name)"
+func ghost_ParseFile_reserveValue() {
+	vs.Assert("identifiers_reserved_before_any_name_is_handed_out", gNamesHandedOut == vs.Old(gNamesHandedOut))
+}
+
+//kvc:ghost (*Parser).ParseFile before "_ = varPool.GetName(spec.Name.Name)"
+func ghost_ParseFile_reserveType() {
+	vs.Assert("identifiers_reserved_before_any_name_is_handed_out", gNamesHandedOut == vs.Old(gNamesHandedOut))
+}
+
+//kvc:ghost (*Parser).ParseFile before "_ = varPool.GetName(decl.Name.Name)"
+func ghost_ParseFile_reserveFunc() {
+	vs.Assert("identifiers_reserved_before_any_name_is_handed_out", gNamesHandedOut == vs.Old(gNamesHandedOut))
+}
+
+// an import gets its name: from here on names are in use
+//
+//kvc:ghost (*Parser).ParseFile after "name := varPool.GetName(baseName)"
+func ghost_ParseFile_importNamed() { gNamesHandedOut++ }
